@@ -12,9 +12,12 @@
    real ones.  The only assumption is that == on the merged snippets dict decides equality.
 
    All histories, of any length; all configurations; all probes. *)
-From Coq Require Import List.
-From Emmet Require Import model.History proofs.HistoryProofs.
+From Coq Require Import String List.
+From Emmet Require Import lib.Base lib.StrLit model.MarkupConvert model.MarkupResolve model.FormatHtml
+     model.OutStream model.MarkupExpand gen.GenMarkupSnippets
+     model.History proofs.HistoryProofs run.HistoryRun proofs.HistoryMarkup proofs.HistoryBound.
 Import ListNotations.
+Notation run := History.run.
 
 Definition eq_decides (W : world) : Prop :=
   forall a b : w_snips W, w_snips_eqb W a b = true <-> a = b.
@@ -83,6 +86,101 @@ Theorem C08_no_growth :
     bem_default W (run W h s0) = bem_default W s0.
 Proof. exact no_growth. Qed.
 Print Assumptions C08_no_growth.
+
+(* ---- the model-level reading of "keeps no per-call data alive" (proofs/HistoryBound.v): the SIZE of
+   what the library holds after a history does not depend on the length of the history.
+   [state_size m st] = number of filled cache dicts among the first m + entries of the default lookup.
+   A cache dict holds at most one entry (a refill replaces it); if the calls of the history pass only
+   the caller's cache dicts 0..n-1 and nothing else was filled before, then after ANY history at most
+   n entries are held -- counted over any range m >= n -- plus what the lookup held before. *)
+Theorem C08_state_size_bounded :
+  forall (W : world) (n : nat) (h : list (call W)) (s0 : lib_state W) (m : nat),
+    uses_below W n h -> empty_from W n s0 -> n <= m ->
+    state_size W m (run W h s0) <= n + bem_default W s0.
+Proof. exact size_bounded_total. Qed.
+Print Assumptions C08_state_size_bounded.
+
+(* ... and WHAT is held: a cache dict holds either what it held before the history or the merged
+   snippets and their table of ONE call of the history that passed this very dict; nothing else of
+   any call (abbreviation, options, tree, output) is part of the state *)
+Theorem C08_cache_entry_origin :
+  forall (W : world) (h : list (call W)) (s0 : lib_state W) (k : nat) (e : cache_entry W),
+    caches W (run W h s0) k = Some e ->
+    caches W s0 k = Some e
+    \/ exists sn a, In (CCss W (Some k) sn a) h /\ ce_source W e = sn /\ w_convert W sn = inr (ce_table W e).
+Proof. exact entry_origin. Qed.
+Print Assumptions C08_cache_entry_origin.
+
+(* ---- the link to the pipeline model (proofs/HistoryMarkup.v).  [mk_world_with ...] is the world
+   whose markup parts ARE the markup pipeline model (parse_abbr, walk_resolve + transform_list with the
+   text the state slot holds WHILE resolution runs -- cleared when truthy --, stringify_markup) and
+   whose stylesheet parts are ANY functions (the real stylesheet model: proofs/HistoryFull.v).
+   [run/HistoryRun.mk_world], which the harness executes against the implementation on every run, is
+   this world (mk_world_is, by reflexivity).
+   After ANY history of markup and stylesheet calls -- succeeding and failing, on any caller dicts and
+   cache dicts, shared or not -- a markup probe on caller dict i returns exactly what the STATELESS
+   pipeline model [expand_markup_str] (the subject of C01-C04, C07, C12-C15) returns for the caller's
+   configuration: [with_caller_text x s] = the record x with the 'text' entry s of the caller's dict.
+   The proof needs that snippet resolution with the text slot cleared is what [markup_parse] does with
+   [snippet_env] (a congruence of walk_resolve in the configuration fields it reads). *)
+Theorem C08_markup_history_is_expand_markup :
+  forall (sargs snips table : Type) (snips_eqb : snips -> snips -> bool) (convert : snips -> rerr + table)
+         (css_expand : sargs -> table -> rerr + str) (css_touch : sargs -> table -> table),
+  let W := mk_world_with sargs snips table snips_eqb convert css_expand css_touch in
+  forall (texts : nat -> slot W) (h : list (call W)) (i : nat) (x : xconfig) (abbr : str),
+    outcome_in W (run W h (fresh W texts)) (CMarkup W i (x, abbr))
+    = of_res sargs snips table snips_eqb convert css_expand css_touch
+             (expand_markup_str (with_caller_text x (texts i)) abbr).
+Proof. exact markup_history_is_expand_markup. Qed.
+Print Assumptions C08_markup_history_is_expand_markup.
+
+(* the same from any state (cache dicts filled in an earlier session, a lookup that is not empty) *)
+Theorem C08_markup_history_is_expand_markup_from_any_state :
+  forall (sargs snips table : Type) (snips_eqb : snips -> snips -> bool) (convert : snips -> rerr + table)
+         (css_expand : sargs -> table -> rerr + str) (css_touch : sargs -> table -> table),
+  let W := mk_world_with sargs snips table snips_eqb convert css_expand css_touch in
+  forall (s0 : lib_state W) (h : list (call W)) (i : nat) (x : xconfig) (abbr : str),
+    outcome_in W (run W h s0) (CMarkup W i (x, abbr))
+    = of_res sargs snips table snips_eqb convert css_expand css_touch
+             (expand_markup_str (with_caller_text x (cfg_text W s0 i)) abbr).
+Proof. exact markup_history_is_expand_markup_gen. Qed.
+Print Assumptions C08_markup_history_is_expand_markup_from_any_state.
+
+(* for the executed world: *)
+Theorem C08_executed_world_is_expand_markup :
+  forall (texts : nat -> slot mk_world) (h : list (call mk_world)) (i : nat) (x : xconfig) (abbr : str),
+    mc_text (xc_m x) = slot_text (texts i) ->
+    exists r, expand_markup_str x abbr = r /\
+      outcome_in mk_world (run mk_world h (fresh mk_world texts)) (CMarkup mk_world i (x, abbr))
+      = match r with
+        | Ok s => Returned mk_world s
+        | ParseErr k p => Raised mk_world (RParse k p)
+        | Internal k => Raised mk_world (RInternal k)
+        | OutOfFuel => Raised mk_world RFuel
+        end.
+Proof. exact executed_world_is_expand_markup. Qed.
+Print Assumptions C08_executed_world_is_expand_markup.
+
+(* non-vacuity of the link: the default html configuration with the user snippet bad = "a)" (a
+   malformed abbreviation) and the caller's text "hi".  History: the call expand('bad', c) RAISES
+   during snippet resolution (while the slot is cleared), then expand('p', c).  Afterwards the slot is
+   "hi" again and the probe expand('ul>li', c) returns what the pipeline model returns, with the text. *)
+Definition ex_x : xconfig :=
+  mkX (mkMConfig (S "html") ((S "bad", S "a)") :: markup_snippets) [] (WStr (S "hi")) None None false None
+                 [S "a"; S "em"; S "span"] false false false [] [] None)
+      (mkOconfig (mkOfmt [c_tab] [] [c_nl]) [] [] [] true false [] [] 3 false [] (S "html") [S "a"; S "em"; S "span"]
+                 false [] [] [] false None None).
+Definition shown (o : outcome mk_world) : rerr + str :=
+  match o with Returned _ s => inr s | Raised _ e => inl e end.
+Example C08_link_nonvacuous :
+  let texts : nat -> slot mk_world := fun _ => Some (Some (WStr (S "hi"))) in
+  let h := [CMarkup mk_world 0 (ex_x, S "bad"); CMarkup mk_world 0 (ex_x, S "p")] in
+  map shown (outcomes mk_world h (fresh mk_world texts)) = [inl (RParse EK_Token (Some 1%Z)); inr (S "<p>hi</p>")]
+  /\ cfg_text mk_world (run mk_world h (fresh mk_world texts)) 0 = Some (Some (WStr (S "hi")))
+  /\ shown (outcome_in mk_world (run mk_world h (fresh mk_world texts)) (CMarkup mk_world 0 (ex_x, S "ul>li")))
+     = inr (S "<ul>" ++ [c_nl; c_tab] ++ S "<li>hi</li>" ++ [c_nl] ++ S "</ul>")
+  /\ expand_markup_str ex_x (S "ul>li") = Ok (S "<ul>" ++ [c_nl; c_tab] ++ S "<li>hi</li>" ++ [c_nl] ++ S "</ul>").
+Proof. vm_compute. repeat split; reflexivity. Qed.
 
 (* non-vacuity: a concrete world and a history with a failing markup call on a configuration
    with text, a cache dict filled, re-keyed by other snippets, a failing convert_snippets;
